@@ -112,8 +112,10 @@ class Stats:
         self.int_types = set()
         self.forms = set()
         self.ops = set()
+        self.env_names = set()
 
     def merge(self, o):
+        self.env_names |= o.env_names
         self.scale_pairs |= o.scale_pairs
         self.int_types |= o.int_types
         self.forms |= o.forms
@@ -391,6 +393,65 @@ def add_locality(reqs, rng, p=0.03):
     return out
 
 
+ENV_ALLOW = re.compile(r"^(RUST_|RUSTC_|CARGO_|MALLOC_|GLIBC_|LD_|LC_|LANG|LANGUAGE|TZ$|TMPDIR$|HOME$|PATH$|VERIF_|ASAN_|TSAN_|"
+                       r"MSAN_|LSAN_|UBSAN_|MIRI)")
+ENV_VALUES = ("1", "0", "true", "strict", "RoundUp", "RoundHalfUp", "roundup", "ROUND_UP", "up", "Up", "HalfUp",
+              "half-up", "half_up", "RoundDown", "RoundFloor", "RoundCeiling", "Round05Up", "RoundHalfDown", "floor",
+              "ceiling", "down", "2", "7")
+
+
+def env_monitor(prop, reqs, bins, wdir, shard, st):
+    """Environment-independence monitor: one probe run under an LD_PRELOAD shim that logs every getenv() name. Names
+    outside the runtime's own (RUST_*, glibc, sanitizers) are recorded, and the batch is re-run and re-judged with each of
+    them set to a range of plausible values: the properties are stated for all inputs, not for all environments."""
+    so = B.getenv_shim()
+    if so is None:
+        st.env_names.add("<monitor skipped: no C compiler>")
+        return
+    bname, binary = bins[0]
+    reqfile = os.path.join(wdir, "env%d.req" % shard)
+    small = [r for r in reqs if len(r) < 4000][:3000]
+    with open(reqfile, "w") as f:
+        f.write("\n".join(small) + "\n")
+    logf = os.path.join(wdir, "env%d.log" % shard)
+    if os.path.exists(logf):
+        os.remove(logf)
+    env = dict(os.environ)
+    env["LD_PRELOAD"] = so
+    env["VERIF_GETENV_LOG"] = logf
+    outfile = os.path.join(wdir, "env%d.out" % shard)
+    try:
+        p = run_probe(binary, reqfile, outfile, env=env)
+    except subprocess.TimeoutExpired:
+        st.errors.append("watchdog: environment monitor run timed out")
+        return
+    if p.returncode != 0:
+        st.errors.append("environment monitor run exited with %d" % p.returncode)
+        return
+    names = set()
+    if os.path.exists(logf):
+        names = set(l.strip() for l in open(logf) if l.strip())
+    st.env_names.add("<scan done>")
+    for n in sorted(names):
+        st.env_names.add(n)
+    for n in sorted(x for x in names if not ENV_ALLOW.match(x)):
+        for val in ENV_VALUES:
+            e2 = dict(os.environ)
+            e2[n] = val
+            try:
+                p = run_probe(binary, reqfile, outfile, env=e2)
+            except subprocess.TimeoutExpired:
+                st.errors.append("watchdog: environment monitor rerun timed out")
+                continue
+            if p.returncode != 0:
+                st.errors.append("environment monitor rerun exited with %d" % p.returncode)
+                continue
+            out_lines = open(outfile).read().split("\n")
+            if out_lines and out_lines[-1] == "":
+                out_lines.pop()
+            judge_batch(prop, small, out_lines, "%s:env %s=%s" % (bname, n, val), st)
+
+
 COLD_THREADS = 8
 
 
@@ -455,6 +516,8 @@ def _worker(args):
                     reqs = ["mode " + other] + reqs[:h] + ["mode " + O.DEFAULT_MODE] + reqs[h:]
                 else:
                     reqs = reqs[:h] + ["mode " + other] + reqs[h:] + ["mode " + O.DEFAULT_MODE]
+            if batch == 0 and shard == 0 and getattr(prop, "ENV_MONITOR", True):
+                env_monitor(prop, reqs, bins, wdir, shard, st)
             if getattr(prop, "COLD_START", True) and (batch == 0 or (tier == "thorough" and batch < 12)):
                 cold_start(prop, reqs, rng, bins, wdir, shard, st)
             if getattr(prop, "LOCALITY", True):
@@ -565,6 +628,7 @@ def finish(prop, tier, seed, st, t0, extra, extra_coverage=None):
         "outcome_histogram": st.outcomes,
         "class_histogram": st.labels,
         "events_per_build": st.per_build,
+        "environment_variables_consulted": sorted(st.env_names),
         "events_per_mode": st.per_mode,
         "hook_site_hits": {k: v for k, v in sorted(st.sites.items()) if v},
         "required_sites": required,
